@@ -567,6 +567,7 @@ def run(ctx):
     check_seek_refusals(ctx, F)
     check_state_ctor_accepts_wrapped(ctx, F)
     c17.check_seek(ctx, F)
+    c17.check_cursor_position_carried(ctx, F)      # a decoder converted in place keeps the position it was sought to
     check_pure_snapshots(ctx, F)
     ctx.assume('a backend write appends one word, a backend read consumes one word (C17 for the provided backends)')
     ctx.assume('Rust typing: a (position, state) pair can only be assembled from the component types recorded by pos()')
